@@ -37,15 +37,61 @@ def replicaBytes (bytes : List Nat) (hasHeaders : Bool) (n id : Nat) : List Nat 
 /-- the part of the file after the header -/
 def body (bytes : List Nat) (hasHeaders : Bool) : List Nat := bytes.drop (headerSize bytes hasHeaders)
 
+/-! ### CSV records (specification side: RFC-4180 quoting, as implemented by the `csv` crate for
+well-formed content — quotes only around whole fields, `""` = escaped quote) -/
+
+def QUOTE : Nat := 34
+def COMMA : Nat := 44
+def CR : Nat := 13
+
+/-- does the text contain an odd number of quote characters, i.e. does it end inside an open quote?
+    (`""` toggles twice, so escaped quotes need no special treatment) -/
+def oddQuotes (l : List Nat) : Bool := l.foldl (fun b c => if c = QUOTE then !b else b) false
+
+/-- Quote-aware record splitter over the physical lines: a line terminator inside an open quote does not
+    end a record — a line that ends inside an open quote is merged with the following ones (`pend`). -/
+def joinLines : List Nat → List (List Nat) → List (List Nat)
+  | pend, [] => if pend = [] then [] else [pend]
+  | pend, l :: ls =>
+    if oddQuotes (pend ++ l) then joinLines (pend ++ l) ls else (pend ++ l) :: joinLines [] ls
+
+/-- the raw records (text including quotes and terminator) of a CSV byte string -/
+def rawRecords (s : List Nat) : List (List Nat) := joinLines [] (splitLines [] s)
+
 /-- strip a trailing `"\n"` / `"\r\n"` / `"\r"` -/
 def stripTerm (l : List Nat) : List Nat :=
   let l1 := if l.getLast? = some 10 then l.dropLast else l
   if l1.getLast? = some 13 then l1.dropLast else l1
 
-/-- Records the `csv` parser yields for a quote-free byte string whose only `'\r'`s precede a `'\n'`:
-    the lines without their terminator; empty lines are skipped (csv-core ignores them).
-    (Not a model of the parser — the assumption under which ranges of whole lines mean whole records.) -/
-def records (seg : List Nat) : List (List Nat) :=
-  ((lines seg).map stripTerm).filter (fun r => !r.isEmpty)
+/-- parser state inside a record: outside quotes / inside a quoted field / just after a `"` seen inside a
+    quoted field (either the closing quote or the first half of `""`) -/
+inductive FSt where
+  | plain | quoted | quoteSeen
+  deriving Repr, DecidableEq
+
+/-- the fields of one record text (terminator already stripped): split at commas outside quotes, remove
+    the enclosing quotes, `""` inside quotes is one quote. -/
+def parseFields : FSt → List Nat → List Nat → List (List Nat)
+  | _, cur, [] => [cur]
+  | .plain, cur, c :: cs =>
+    if c = COMMA then cur :: parseFields .plain [] cs
+    else if c = QUOTE ∧ cur = [] then parseFields .quoted [] cs
+    else parseFields .plain (cur ++ [c]) cs
+  | .quoted, cur, c :: cs =>
+    if c = QUOTE then parseFields .quoteSeen cur cs else parseFields .quoted (cur ++ [c]) cs
+  | .quoteSeen, cur, c :: cs =>
+    if c = QUOTE then parseFields .quoted (cur ++ [QUOTE]) cs      -- `""`
+    else if c = COMMA then cur :: parseFields .plain [] cs           -- closing quote, next field
+    else parseFields .plain (cur ++ [c]) cs
+
+/-- The records (as lists of fields) of a CSV byte string; empty lines are skipped (csv-core ignores them). -/
+def records (seg : List Nat) : List (List (List Nat)) :=
+  (rawRecords seg).filterMap fun r =>
+    let t := stripTerm r
+    if t.isEmpty then none else some (parseFields .plain [] t)
+
+/-- `header_size` the property asks for: the first record (quote-aware), not the first physical line. -/
+def specHeaderSize (bytes : List Nat) (hasHeaders : Bool) : Nat :=
+  if hasHeaders then ((rawRecords bytes).head?.map List.length).getD 0 else 0
 
 end Noir.CsvSplit
